@@ -72,13 +72,13 @@ func VerifC15RingPosition() {
 // (2) replica key text: AddDestination hashes exactly "('host', 'inst'):i" / "('host', None):i", records host
 // (without port), instance and destination index in every ring entry.
 func VerifC15ReplicaKey() {
-	host := verifC15Name("host", 1+verifChoice("hostlen", 3))
+	host := verifC15Name("host", 1+verifChoice("hostlen", verifC15IntParam("maxhost", 2)))
 	inst := verifC15Name("inst", verifChoice("instlen", 3))
 	addr := host
 	if verifChoice("port", 2) == 1 {
 		addr = host + ":2003"
 	}
-	R := 1 + verifChoice("replicas", 3)
+	R := 1 + verifChoice("replicas", verifC15IntParam("maxreplicas", 2))
 	other := &dest.Destination{Addr: "zz:1", Instance: ""}
 	d := &dest.Destination{Addr: addr, Instance: inst}
 	h := ConsistentHasher{replicaCount: R, destinations: []*dest.Destination{other, other}}
@@ -218,17 +218,25 @@ type verifC15World struct {
 	dests  []*dest.Destination
 }
 
-// verifC15MakeWorld: nd destinations with pairwise distinct (host, instance), instance present or not,
-// every replica position free (bound to the named variables "ringpos"), one metric name with free position.
+// verifC15MakeWorld: nd destinations with pairwise distinct (host, instance). Host names are concrete
+// (param "hosts", one letter per destination, e.g. "ab" or "aa" for two instances on one server), the
+// instance is absent or one free byte, every replica position is free (MD5 uninterpreted on every input;
+// bound to the named variables "ringpos"), and one metric name with a free position.
 func verifC15MakeWorld(nd, R int) *verifC15World {
+	verifMD5Uninterpreted()
 	w := &verifC15World{R: R}
-	hostLen := verifC15IntParam("hostlen", 1)
+	hosts := verifParam("hosts")
+	if hosts == "" {
+		hosts = "abcd"
+	}
 	for d := 0; d < nd; d++ {
 		s := verifC15Spec{}
-		s.host = verifC15Name("host", hostLen)
+		s.host = "h" + hosts[d:d+1]
 		s.inst = verifC15Name("inst", verifChoice("instlen", 2))
 		for e := 0; e < d; e++ {
-			verifAssume(verifOr(w.specs[e].host != s.host, w.specs[e].inst != s.inst))
+			if w.specs[e].host == s.host {
+				verifAssume(w.specs[e].inst != s.inst)
+			}
 		}
 		for r := 0; r < R; r++ {
 			p := verifUint16("ringpos")
@@ -239,12 +247,9 @@ func verifC15MakeWorld(nd, R int) *verifC15World {
 		}
 		w.specs = append(w.specs, s)
 	}
-	w.key = verifBytes("key", 1+verifChoice("keylen", 2))
+	w.key = []byte("some.metric")
 	w.keyPos = verifUint16("keypos")
 	if verifIsSymbolic() {
-		for _, b := range w.key {
-			verifAssume(verifAnd(b > 0x20, b < 0x7f))
-		}
 		verifAssume(verifC15Pos(w.key) == w.keyPos)
 	} else {
 		w.realize()
@@ -255,6 +260,9 @@ func verifC15MakeWorld(nd, R int) *verifC15World {
 	}
 	return w
 }
+
+// verifMD5Uninterpreted (engine): md5.Sum becomes an uninterpreted function on concrete inputs too.
+func verifMD5Uninterpreted() {}
 
 // realize (native replay only): replace hosts, instances and the metric name by strings whose real MD5
 // positions are order-isomorphic (same order, same ties) to the solver's positions, keeping the order of
@@ -388,20 +396,26 @@ func verifC15Iota(n int) []int {
 func VerifC15OrderIndependent() {
 	nd := verifC15IntParam("ndests", 2)
 	w := verifC15MakeWorld(nd, verifC15IntParam("replicas", 1))
-	perms := verifC15Perms[nd]
-	perm := perms[verifChoice("perm", len(perms))]
 	hA := w.hasher(verifC15Iota(nd))
-	hB := w.hasher(perm)
-	verifAssert(len(hA.Ring) == nd*w.R && len(hB.Ring) == nd*w.R, "ring-length")
-	for i := range hA.Ring {
-		a, b := hA.Ring[i], hB.Ring[i]
-		verifAssert(verifAnd(a.Position == b.Position, verifAnd(a.Hostname == b.Hostname, a.Instance == b.Instance)), "same-ring-in-any-listing-order")
-		verifAssert(hA.destinations[a.DestinationIndex] == hB.destinations[b.DestinationIndex], "ring-entry-points-to-same-destination")
-		if i > 0 {
-			verifAssert(!verifC15TupleLess(a, hA.Ring[i-1]), "ring-sorted-in-carbon-tuple-order")
-		}
+	verifAssert(len(hA.Ring) == nd*w.R, "ring-length")
+	for i := 1; i < len(hA.Ring); i++ {
+		verifAssert(!verifC15TupleLess(hA.Ring[i], hA.Ring[i-1]), "ring-sorted-in-carbon-tuple-order")
 	}
-	verifAssert(w.pick(&hA) == w.pick(&hB), "same-destination-in-any-listing-order")
+	cA := w.pick(&hA)
+	// every other listing order, on the same path (the second ring's order is implied by the first's)
+	for _, perm := range verifC15Perms[nd] {
+		hB := w.hasher(perm)
+		verifAssert(len(hB.Ring) == nd*w.R, "ring-length")
+		if len(hB.Ring) != len(hA.Ring) {
+			continue
+		}
+		for i := range hA.Ring {
+			a, b := hA.Ring[i], hB.Ring[i]
+			verifAssert(verifAnd(a.Position == b.Position, verifAnd(a.Hostname == b.Hostname, a.Instance == b.Instance)), "same-ring-in-any-listing-order")
+			verifAssert(hA.destinations[a.DestinationIndex] == hB.destinations[b.DestinationIndex], "ring-entry-points-to-same-destination")
+		}
+		verifAssert(w.pick(&hB) == cA, "same-destination-in-any-listing-order")
+	}
 	verifCover("end")
 }
 
@@ -417,16 +431,18 @@ func VerifC15Disruption() {
 	c0, c1 := w.pick(&h0), w.pick(&h1)
 	D := w.dests[nd]
 	verifAssert(c1 == c0 || c1 == D, "add-moves-keys-only-to-the-new-destination")
-	j := verifChoice("remove", nd+1)
-	var rest []int
-	for _, i := range all {
-		if i != j {
-			rest = append(rest, i)
+	// removal of any one destination from the enlarged list (index shift included), on the same path
+	for j := 0; j <= nd; j++ {
+		var rest []int
+		for _, i := range all {
+			if i != j {
+				rest = append(rest, i)
+			}
 		}
+		h2 := w.hasher(rest)
+		c2 := w.pick(&h2)
+		verifAssert(c2 == c1 || c1 == w.dests[j], "remove-moves-only-keys-of-the-removed-destination")
 	}
-	h2 := w.hasher(rest)
-	c2 := w.pick(&h2)
-	verifAssert(c2 == c1 || c1 == w.dests[j], "remove-moves-only-keys-of-the-removed-destination")
 	verifCover("end")
 }
 
